@@ -46,9 +46,9 @@ fn apply_map_body<const NT: usize, const ND: usize>() {
 	let mut ts = [T { key: 0, name: None, payload: 0 }; NT];
 	let mut ds = [D { key: 0, action: Action::None, child: 0 }; ND];
 	let mut i = 0;
-	while i < NT { ts[i] = T { key: sym::u8_in(1, 3), name: any_opt_nm(), payload: sym::u8_in(0, 9) }; i += 1; }
+	while i < NT { ts[i] = T { key: sym::u8_in(1, 4), name: any_opt_nm(), payload: sym::u8_in(0, 9) }; i += 1; }
 	let mut i = 0;
-	while i < ND { let child = sym::u8(); sym::assume(child <= 9 || child == 0xFF); ds[i] = D { key: sym::u8_in(1, 3), action: any_action_nm(), child }; i += 1; }
+	while i < ND { let child = sym::u8(); sym::assume(child <= 9 || child == 0xFF); ds[i] = D { key: sym::u8_in(1, 4), action: any_action_nm(), child }; i += 1; }
 	// keys are unique inside each map
 	if NT == 2 { sym::assume(ts[0].key != ts[NT - 1].key); }
 	if ND == 2 { sym::assume(ds[0].key != ds[ND - 1].key); }
@@ -109,7 +109,7 @@ fn apply_map_body<const NT: usize, const ND: usize>() {
 }
 
 //# {"id":"c04_change_name","props":["C04"],"tier":"quick","cap":300,"bound":"Names<2, 1-byte name>: every cell content, every namespace index 0..1, every from/to; no loops","fns":["quill::tree::names::Names::<2,_>::change_name"]}
-//# {"id":"c04_apply_map_1_1","props":["C04"],"tier":"quick","cap":900,"bound":"apply_diff_map::<2, u8, DiffNode, Node, Nm, Info>: 1 target x 1 diff, keys in 1..=3, every action, every name cell, child ok/failing; indexmap model; unwind 4","fns":["quill::action::apply_diff::apply_diff_map","Names::change_name"]}
+//# {"id":"c04_apply_map_1_1","props":["C04"],"tier":"quick","cap":900,"bound":"apply_diff_map::<2, u8, DiffNode, Node, Nm, Info>: 1 target x 1 diff, keys in 1..=4, every action, every name cell, child ok/failing; indexmap model; unwind 4","fns":["quill::action::apply_diff::apply_diff_map","Names::change_name"]}
 //# {"id":"c04_apply_map_2_1","props":["C04"],"tier":"quick","cap":1200,"bound":"2 targets x 1 diff, as above; unwind 5","fns":["apply_diff_map","Names::change_name"]}
 //# {"id":"c04_apply_map_1_2","props":["C04"],"tier":"quick","cap":1200,"bound":"1 target x 2 diffs, as above; unwind 5","fns":["apply_diff_map","Names::change_name"]}
 //# {"id":"c04_apply_map_2_2","props":["C04"],"tier":"thorough","cap":3000,"bound":"2 targets x 2 diffs, as above; unwind 5","fns":["apply_diff_map","Names::change_name"]}
